@@ -18,10 +18,11 @@ Dims == <<
   [n |-> "ports", top |-> FALSE, k |-> "ports", alts |-> {Absent, Sq1(M1("target", I(80))), Sq1(M3("target", I(80), "protocol", S("udp"), "mode", S("host"))), Sq1(M2("target", I(80), "protocol", S("tcp")))}],
   [n |-> "secrets", top |-> FALSE, k |-> "secrets", alts |-> {Absent, Sq1(S("s1")), Sq1(M1("source", S("s1"))), Sq1(M2("source", S("s1"), "target", S("/custom/t")))}],
   [n |-> "env_file", top |-> FALSE, k |-> "env_file", alts |-> {Absent, S("./a.env"), Sq1(M1("path", S("./a.env"))), Sq1(M2("path", S("./a.env"), "required", B(FALSE)))}],
+  [n |-> "gpus", top |-> FALSE, k |-> "gpus", alts |-> {Absent, Sq1(M1("driver", S("nvidia"))), Sq1(M2("driver", S("nvidia"), "count", I(0))), Sq1(M2("driver", S("nvidia"), "count", I(2))), Sq1(M2("driver", S("nvidia"), "count", S("all"))), Sq1(M2("driver", S("nvidia"), "device_ids", Sq1(S("0"))))}],
   [n |-> "pull_policy", top |-> FALSE, k |-> "pull_policy", alts |-> {Absent, S("if_not_present"), S("missing"), S("always")}],
-  [n |-> "top networks", top |-> TRUE, k |-> "networks", alts |-> {Absent, M1("n1", EmptyM), M2("n1", Null, "default", M1("driver", S("bridge"))), M1("n1", M1("name", S("custom"))), M1("n1", M1("external", B(TRUE))), M1("default", M1("name", S("mynet")))}],
-  [n |-> "top volumes", top |-> TRUE, k |-> "volumes", alts |-> {Absent, M1("data", Null), M1("data", M1("name", S("named"))), M1("data", M1("external", B(TRUE)))}],
-  [n |-> "top secrets", top |-> TRUE, k |-> "secrets", alts |-> {M1("s1", M1("file", S("./s"))), M1("s1", M2("file", S("./s"), "name", S("sn"))), M1("s1", M1("external", B(TRUE)))}]
+  [n |-> "top networks", top |-> TRUE, k |-> "networks", alts |-> {Absent, M1("n1", EmptyM), M2("n1", Null, "default", M1("driver", S("bridge"))), M1("n1", M1("name", S("custom"))), M1("n1", M1("external", B(TRUE))), M1("n1", M1("external", B(FALSE))), M1("default", M1("name", S("mynet")))}],
+  [n |-> "top volumes", top |-> TRUE, k |-> "volumes", alts |-> {Absent, M1("data", Null), M1("data", M1("name", S("named"))), M1("data", M1("external", B(TRUE))), M1("data", M1("external", B(FALSE)))}],
+  [n |-> "top secrets", top |-> TRUE, k |-> "secrets", alts |-> {M1("s1", M1("file", S("./s"))), M1("s1", M2("file", S("./s"), "name", S("sn"))), M1("s1", M1("external", B(TRUE))), M1("s1", M2("file", S("./s"), "external", B(FALSE)))}]
 >>
 NDims == Len(Dims)
 \* a choice picks one alternative per dimension; cases vary one dimension (others at their first listed "plain" choice) or a pair of them
@@ -36,7 +37,7 @@ Doc(choice) ==
 \* combinations the model itself forbids (network_mode together with networks) or that dangle (network n1 used but not declared)
 Valid(choice) ==
   /\ (choice[2] # Absent => choice[1] = Absent)
-  /\ (choice[1] = Sq1(S("n1")) => (choice[13] # Absent /\ Has(choice[13], "n1")))
+  /\ (choice[1] = Sq1(S("n1")) => (choice[14] # Absent /\ Has(choice[14], "n1")))
 VARIABLE cs
 Init == \E i \in 1..NDims : cs = [seed |-> i]
 IsSeed == "seed" \in DOMAIN cs
